@@ -24,6 +24,10 @@
      convert_path_complex      complex data: p.psd = v (ANY two-sided v), any path over twosided/centerdc: unconditional
      complex_onesided_raises   complex data asked for onesided: error, object unchanged
      reachable_wf              every state reached by p.psd = v; p.sides = ... is well formed
+     tools_onesided_2_twosided_is_conv   the helper onesided_2_twosided is the conversion for NFFT = 2*len-2 (even), so
+                               every theorem above applies to the four helpers (the other three ARE conv branches)
+     cshift_inverse, cshift_invariants   tools.cshift (no longer used by the conversions): cshift(-k) undoes cshift(k);
+                               length and sum are kept
    Well-formedness [wf cplx nfft s p]: NFFT >= 1, len(p) = len(frequencies(s)); complex data: s is not onesided;
    real data: a twosided/centerdc vector is Hermitian symmetric (p[j] = p[n-j] in FFT order).  The symmetry hypothesis is
    necessary, not a weakness of the proof: see [one_two_one_needs_symmetry] below.
@@ -119,6 +123,16 @@ Theorem reachable_wf (cplx : bool) (nfft : nat) (v : list F) (path : list side) 
   (1 <= length v)%nat -> (cplx = false -> (1 <= nfft)%nat /\ length v = flen One nfft) ->
   run_path path (assign_psd cplx nfft v) = Some st' -> wf_state st'.
 Proof. intros Hv Hl. exact (wf_run_thm path _ st' (wf_assign_thm cplx nfft v Hv Hl)). Qed.
+Theorem tools_onesided_2_twosided_is_conv (p : list F) : (2 <= length p)%nat ->
+  conv (2 * length p - 2) One Two p = one2two_even p /\ length p = flen One (2 * length p - 2).
+Proof. exact (one2two_even_is_conv_thm p). Qed.
+
+Theorem cshift_inverse (l : list F) (k : Z) : cshift (cshift l k) (- k) = l.
+Proof. exact (cshift_inverse_thm l k). Qed.
+
+Theorem cshift_invariants (l : list F) (k : Z) :
+  length (cshift l k) = length l /\ sumL (cshift l k) = sumL l.
+Proof. exact (cshift_invariants_thm l k). Qed.
 End C06.
 
 (* ---------------------------------------------------------------- non-vacuity, on exact Gaussian rationals *)
@@ -192,3 +206,6 @@ Print Assumptions convert_path_real.
 Print Assumptions convert_path_complex.
 Print Assumptions complex_onesided_raises.
 Print Assumptions reachable_wf.
+Print Assumptions tools_onesided_2_twosided_is_conv.
+Print Assumptions cshift_inverse.
+Print Assumptions cshift_invariants.
